@@ -148,7 +148,9 @@ func genSegs(t *rapid.T, label string) []*seg {
 	if rapid.IntRange(0, 11).Draw(t, label+"long") == 0 {
 		n = rapid.IntRange(7, 120).Draw(t, label+"nlong") // schedules of a day in quarter hours are this long
 	}
-	out := make([]*seg, 0, n)
+	// lists built with append have room to spare: an operation that appends to (or shifts within) the slice it was
+	// given then writes into the caller's array
+	out := make([]*seg, 0, n+rapid.IntRange(0, 3).Draw(t, label+"spare"))
 	for i := 0; i < n; i++ {
 		s := &seg{Magnitude: float32(rapid.IntRange(0, 5).Draw(t, label+"mag"))}
 		if i == n-1 && rapid.IntRange(0, 3).Draw(t, label+"inf") == 0 {
